@@ -228,3 +228,24 @@ PROPS["C15"] = pbt(
             "indented_line_with_delimiter|sub_python": 0.20, "repeated_item|sub_options": 0.20,
             "unknown_item|sub_options": 0.20},
 )
+
+PROPS["C07"] = pbt(
+    "pbt_c07", "pbt_c07.cpp",
+    rule=("(a) setter histories (<=40 typed/string sets over sections {NULL,'',A,[A],B,[B],'Sec C','[Sec C]'} and 8 "
+          "keys incl. a long and a UTF-8 key, values of DESIGN 5.4 incl. empty and multi-line) on econf_newKeyFile / "
+          "econf_newIniFile / econf_newKeyFile_with_options; (b) parsed conventional files restricted to DESIGN 5.4 "
+          "(quoted values, comments, continuation lines), optionally re-tagged; delimiter tag in {=,:,space} x "
+          "comment tag in {#,;}. Oracle: write, read back with the same characters, DESIGN 5.4 equality (key-bearing "
+          "sections as a set, key sequence per section, values byte-exact / multi-line as trimmed line lists, comments "
+          "of single-line entries). non-trivial = >=2 key-bearing sections, or a quoted value, comment or multi-line "
+          "value; distinct = (section,key) sequence or file skeleton + tags"),
+    technique="property-based round-trip testing (write -> read) over setter histories and parsed files, rapidcheck",
+    level_text=("generated search with a round-trip oracle over the write-safe domain of DESIGN 5.4; 100k (quick) / "
+                "3M (thorough) objects, all six tag combinations, both ways of building an object."),
+    level_note="domain restricted to values with an unambiguous textual form (DESIGN 5.4); section order and key-less sections are not compared",
+    quick={"cases": 100000},
+    thorough={"cases": 3000000},
+    floors={"reopened_section_by_setters": 0.10, "groupless_after_section": 0.10, "overwritten_key": 0.15,
+            "read_quoted": 0.08, "comments": 0.15, "d_space": 0.25, "d_eq": 0.25, "d_colon": 0.25, "c_hash": 0.40,
+            "c_semicolon": 0.40},
+)
